@@ -286,3 +286,34 @@ pub fn c06_t_keyboard_two_frames() {
     }
     kani::cover!(matches!(last, Ok(Some(_))));
 }
+
+/// C06 thorough: three frames in a row (valid or corrupted, 2^33 bit streams), each decoded exactly
+/// as whole-word decoding says, with optional clear() between them.
+#[kani::proof]
+#[kani::unwind(300)]
+pub fn c06_t_three_frames() {
+    let mut d = Ps2Decoder::new();
+    let mut f = 0u8;
+    while f < 3 {
+        let mut w = 0u16;
+        let mut last = Ok(None);
+        let mut n = 0u8;
+        while n < 11 {
+            let b: bool = kani::any();
+            w |= (b as u16) << n;
+            last = d.add_bit(b);
+            if n < 10 {
+                assert!(last == Ok(None), "C06: early completion");
+            }
+            n += 1;
+        }
+        crate::show!("C06 three frames: frame #{}={:#06x} got={:?}", f, w, last);
+        assert!(last == ref_frame(w).map(Some), "C06: a later frame depends on the frames before it");
+        if kani::any() {
+            d.clear();
+        }
+        f += 1;
+    }
+    assert!(d == Ps2Decoder::new());
+    kani::cover!(true);
+}
